@@ -4,6 +4,7 @@ import os
 import sys
 from pathlib import Path
 
+import common
 from common import Suite, Violation, err_enum, quiet, scratch_dir
 
 # SLURM's job state vocabulary (squeue(1), JOB STATE CODES)
@@ -68,7 +69,7 @@ class SlurmSuite(Suite):
             def sleep(s, _l=self._sleeps):
                 _l.append(s)
         self._saved_time = rc.time
-        rc.time = _T
+        rc.time = common.dual_time(_T)
         os.environ.setdefault("USER", "verif")
 
     def teardown(self):
